@@ -36,8 +36,11 @@ RULE = (
     "documented shortcut: check_deleted=False and nothing missing in dest => everything ok). The strategy that "
     "actually ran is observed by spying on list_oids_exists/_list_oids_traverse and reported as a class. "
     "Non-trivial = >= 2 queried ids of which at least one exists and one is missing in A. "
-    "Index half: a rule-based history (<= 12 steps) over a remote (either class), a full cache and the "
-    "persistent ObjectDBIndex obtained from get_index(remote): push(closed request: directories with all their "
+    "Index half: a rule-based history (<= 12 steps) over 1-3 remotes (either class, all configured with the "
+    "same tmp_dir), a full cache and one persistent ObjectDBIndex per remote obtained from get_index(remote); "
+    "every step addresses a drawn remote (usually the one of the previous step) and every invariant is "
+    "evaluated per (remote, its own index) for ALL remotes after every step, so nothing delivered to or "
+    "indexed for one remote may surface in another's index or answers: push(closed request: directories with all their "
     "files or shallow=False; optional upload-failure subset or abort injected at the final placement call; "
     "cache_odb = cache or remote as index.push does), fetch(closed request into a fresh empty store with "
     "src_index), status(arbitrary query, shallow/expanded, with the index; trees read from the cache or, shallow, "
@@ -73,6 +76,8 @@ ASSUMPTIONS = [
     "lacks nothing: everything is then reported ok",
     "uploads into a local store complete at os.replace/os.rename/os.link/os.symlink onto the object path "
     "(that is where faults and aborts are injected)",
+    "several remotes of one history share one tmp_dir and differ in their paths, so get_index() gives each its "
+    "own index name; all handles are opened in one process (as index.push/fetch do for consecutive remotes)",
     "a fetch is issued closed and shallow with cache_odb holding the directory objects, as index.fetch does",
     "an interrupted index update is modelled at transaction granularity (sqlite commits are atomic): the call "
     "dies on entering its n-th ObjectDBIndex write transaction; index.clear() is not interrupted",
